@@ -239,9 +239,20 @@ _c("C12",
    "(same vset, immutability, default), compositions of ANY length are the fold of the documented set operations (C12_compose, "
    "induction over the operator list), bad names raise TypeError, the source and the rest of the environment are unchanged, "
    "no operator fails on its own (C12_operators_total: a source with a Constant member included), the derived class sees the "
-   "_ignore_none its source sees, own or inherited (C12_ignore_none, C12_ignore_none_effective). "
-   "Class statements and derivations are run on typedpy and compared step by step inside Coq; documented sets, issubclass and "
-   "source-vs-derived accept/reject/normal form are evaluated on the implementation.",
+   "_ignore_none its source sees, own or inherited (C12_ignore_none, C12_ignore_none_effective), as one of THREE values -- absent, "
+   "False, True -- so that __setattr__'s None decision getattr(self, '_ignore_none', <process-wide default>) agrees for source and "
+   "derived class under every value of TypedPyDefaults.allow_none_for_optionals, also one switched after the derivation "
+   "(C12_seen_ignore_none, C12_none_decision; Struct/DeriveNone.v). "
+   "Class statements and derivations are run on typedpy and compared step by step inside Coq; documented sets, issubclass, "
+   "'a new class object', 'no earlier class changed by a later derivation' and source-vs-derived accept/reject/normal form at "
+   "construction AND at assignment are evaluated on the implementation, under the four combinations of the process-wide defaults "
+   "allow_none_for_optionals / additional_properties_default. Enumerated every run: every operator (both spellings of omit/pick) "
+   "over a base class, its subclass, a sibling (and a grandchild) in every order of application, a class redefined under the same "
+   "name, and every class-level option (_ignore_none, _additional_properties, _enable_undefined_value) at every explicit value "
+   "-- own, inherited, overriding the base's -- on mutable / immutable / final sources, with falsy defaults and with class "
+   "statements on top of the derived classes. NOT covered: the explicit class attribute _immutable (immutability only through "
+   "ImmutableStructure / FinalStructure; a derived class is a plain Structure, assignment is compared for mutable sources only); "
+   "_enable_undefined_value is outside the Coq model (implementation-side clause only; listed finding).",
    "Trusted: Coq kernel + vm_compute; Define.v/Derive.v hand-written; harness/defgen.py; CPython metaclass protocol.",
    "Coq proof (induction over operator chains on a model of class definition) + model/implementation correspondence in vm_compute")
 _c("C14",
